@@ -24,7 +24,8 @@ RET_TYPES = ["", "", " -> i32", " -> &str", " -> &'a str", " -> Result<u8, ()>",
              " -> T", " -> Option<&'a T>", " -> (u8, u8)", " -> !", " -> Box<dyn Send>"]
 FN_ATTRS = ["#[inline]", "#[doc = \"x\"]", "/** doc */", "#[cfg(test)]", "#[cfg(any())]", "#[allow(unused)]",
             "#[async_trait::async_trait]", "#[async_trait]", "#[mockall::automock]", "#[tracing::instrument(skip(deps))]",
-            "#[some::other(a, b = 1)]", "#[::entrait::entrait(Nested)]", "#[cfg_attr(test, derive(Debug))]"]
+            "#[some::other(a, b = 1)]", "#[::entrait::entrait(Nested)]", "#[cfg_attr(test, derive(Debug))]",
+            "#[automock]", "#[async_trait(?Send)]", "#[my::automock(x)]", "#[cfg(all())]", "#[must_use]"]
 BODIES = ["{ }", "{ 42 }", "{ a + b }", "{ let x = |y: u8| y; x(1); }", "{ unimplemented!() }",
           "{ if a { b } else { c } }", "{ struct Inner; impl Inner { fn f() {} } }", "{ loop { break; } }",
           "{ $ @ # ~ ? }", "{ a => b, 'x: loop {} }", "{ r#\"str\"# ; b'x'; 1.5e3; 0xff_u8 }"]
@@ -333,8 +334,9 @@ class Gen:
 
     def case_trait(self, allow_invalid=False):
         attrs = self.attrs(0.25, ["#[async_trait::async_trait]", "#[async_trait]", "#[mockall::automock]",
-                                  "#[doc = \"t\"]", "/** doc */", "#[allow(unused)]", "#[cfg(test)]"])
-        vis = self.pick(["", "pub ", "pub(crate) ", "pub(super) "])
+                                  "#[doc = \"t\"]", "/** doc */", "#[allow(unused)]", "#[cfg(test)]", "#[automock]",
+                                  "#[async_trait(?Send)]", "#[my::automock(x)]", "#[cfg(all())]"])
+        vis = self.pick(["", "pub ", "pub(crate) ", "pub(super) ", "pub(in crate::a) ", "pub(self) "])
         pre = "unsafe " if self.maybe(0.06) else ""
         name = self.pick(TRAIT_NAMES)
         gens = []
